@@ -13,6 +13,7 @@ class C15(Prop):
     ID = "C15"
     NEED_BINS = True
     PER_CASE_TIMEOUT = 120.0
+    MODEL_TIMEOUT = 600.0      # the extracted model walks 976+ streams base by base on the chunked-path cases
     THEOREMS = ["C15_merge_into", "C15_merge_into_no_overlap", "C15_merge_many", "C15_merge_many_code_window", "C15_fill", "C15_fill_start_to_end",
                 "C15_fill_signal", "C15_tool_pipeline", "C15_tool_chunked", "C15_tool_run", "C15_outputs_agree", "C15_output_names"]
     RULE = ("library cases: merge_into over all 13 interval relations x zero/non-zero values (thorough: every pair with ends <= 4 "
@@ -144,8 +145,9 @@ class C15(Prop):
                 yield sx([0, [rng.randint(0, 4), rng.randint(0, 4), 8], [rng.randint(0, 4), rng.randint(0, 4), 8]]), ["merge_into", "any-values"]
 
     def tool_case(self, rng, big=False):
-        names = rng.sample([b"chr1", b"chr10", b"chr2", b"chrX", b"a", b"Z", b"chr1_random"], rng.randint(1, 3))
-        sizes = {n: rng.choice([1000, W + 1, 2 * W, 2 * W + 20000]) for n in names}
+        names = rng.sample([b"chr1", b"chr10", b"chr2", b"chrX", b"a", b"Z", b"chr1_random"], rng.randint(1, 2 if big else 3))
+        # the 976+-input cases aim at the chunked path, not at the windows: short chromosomes keep the base-by-base model cheap
+        sizes = {n: rng.choice([1000, 1000, 3000, W + 1] if big else [1000, W + 1, 2 * W, 2 * W + 20000]) for n in names}
         nfiles = rng.choice([1, 2, 2, 3, 4])
         tags = ["tool", f"files={nfiles}", f"chroms={len(names)}"]
         files = []
